@@ -217,6 +217,7 @@ func c01(x *mon.Ctx) {
 	x.Assume = []string{"ECDSA-P256/SHA-256 unforgeability (a flipped bit verifying by chance has probability ~2^-128)", "Go crypto/ecdsa, crypto/x509, encoding/pem are correct"}
 
 	// ---- (b) structured forgeries
+	enableShadowForTwins(x)
 	nw := x.Pick(6, 40)
 	fl := faults01()
 	x.Each(nw*len(fl), func(i int) {
@@ -243,6 +244,7 @@ func c01(x *mon.Ctx) {
 			for _, form := range forms {
 				c := w.Case(l, f.name, fmt.Sprintf("w%d", wi))
 				c.Form, c.Expect, c.Twin = form, f.expect, "twin"
+				c.TwinRef = tw
 				out, v := check(x, i, c)
 				if wi == 0 && l == 0 && form == "raw" && (fi == 1 || fi == 15) {
 					x.Sample(sampleOf(c, out, v))
